@@ -494,6 +494,15 @@ func (p *Pool) Put(x any) {
 		return
 	}
 	vsim.ReleaseMerge(poolRaceAddr(x))
+	// The same object must never be in the pool twice: two later Gets would hand it
+	// to two users at once. (Compared by identity of the pointer stored in the interface.)
+	xp := (*[2]unsafe.Pointer)(unsafe.Pointer(&x))[1]
+	for i := 0; i < p.n; i++ {
+		it := p.items[i]
+		if (*[2]unsafe.Pointer)(unsafe.Pointer(&it))[1] == xp && xp != nil {
+			vsim.NoteDoublePut()
+		}
+	}
 	if p.n == poolCap {
 		// full: drop the oldest (the real pool drops at GC)
 		for j := 0; j < p.n-1; j++ {
